@@ -141,7 +141,8 @@ func runBcast(c *bcastCase) (v *hx.Violation) {
 }
 
 func checkC14(c *hx.Checker) {
-	c.Rule = "all ordered pairs of shapes of Box(rank 0..4, extents {1,2,3}) for MultidirectionalBroadcast and UnidirectionalBroadcast, int64 fill = flat index + 1; " +
+	c.Rule = "operands of different element types: every ordered pair of 5 types on all pairs of Box(rank 0..2, extents {1,2,3}); histories: every compatible request over Box(rank 0..2, extents {1,2,31,32,33}) followed by every other request over that box (multi; uni where A is the larger operand), the second one judged; " +
+		"all ordered pairs of shapes of Box(rank 0..4, extents {1,2,3}) for MultidirectionalBroadcast and UnidirectionalBroadcast, int64 fill = flat index + 1; " +
 		"extents {1,2,3,4} on rank<=4; thorough: extents {1..5} on rank<=4; all 14 dtypes on the rank<=3 extents {1,2} sub-box; 6 shapes of rank 5 and 6 against every shape of rank <= 2 and against each other (rank differences up to 6); all ordered pairs of 11 larger shapes (up to 5155 elements, odd counts); every case is followed by a second request on the same source tensor objects after their contents were overwritten in place. " +
 		"non-trivial = at least one axis of one operand is stretched or padded (shapes differ); distinct by (fn,dtype,shapeA,shapeB)"
 	c.Assumptions = []string{"reference = right-aligned broadcasting written as index arithmetic (ref.BroadcastTo)", "complex/string elements are opaque tags (only moved, never computed on)"}
